@@ -59,25 +59,30 @@ def canonMembers : List (String × Json) → List (String × Json)
   | (k, v) :: r => (k, canon v) :: canonMembers r
 end
 
-/-! ## Configuration: behaviours of server.go that the proposed fixes switch -/
+/-! ## Configuration: behaviours of server.go that fixes switch(ed) -/
 
 structure Config where
   /-- `Server.disableBatchRequests` -/
   batchDisabled : Bool := false
   /-- `isBatch` peeks through a `bufio.Reader` of `bufferSize` = 128 bytes: `Peek(n)` fails for
   n > 128, so the first non-blank byte is only seen when fewer than 128 blanks precede it.
-  `none` = no limit (proposed fix). -/
+  `none` = no limit (proposed fix C11-batch-after-blanks). -/
   peekLimit : Option Nat := some 128
-  /-- unchanged tree: `false` — a handler returning an untyped nil result produces a response
-  without `result` (the `omitempty` tag drops it). `true` = `"result":null` (proposed fix). -/
-  nullForNilResult : Bool := false
-  /-- unchanged tree: `false` — a request without id whose method is unknown or whose params do
-  not bind is answered with an error object (id null). `true` = no reply (proposed fix). -/
-  silentNotificationErrors : Bool := false
+  /-- `true` (since fix 6b06fc7): an untyped nil result is written as `"result":null`.
+  `false` (pinned commit): the `omitempty` tag drops it and the response has no `result`. -/
+  nullForNilResult : Bool := true
+  /-- `true` (since fix 16a67e4): a request without id whose method is unknown or whose params
+  do not bind gets no reply. `false` (pinned commit): it is answered with an error, id null. -/
+  silentNotificationErrors : Bool := true
   deriving Repr, DecidableEq
 
-/-- The server as it is at the pinned commit. -/
+/-- The server as it is in the current tree (the harness probes the real server and refuses to
+run the correspondence under any other value of the two repaired switches). -/
 def junoCfg : Config := {}
+
+/-- The server at the pinned commit 0308209, before the fixes 6b06fc7 and 16a67e4 (kept for the
+regression witnesses in Props.lean). -/
+def pinnedCfg : Config := { nullForNilResult := false, silentNotificationErrors := false }
 
 /-! ## Request decoding (what `json.Decoder.Decode(*Request)` does) -/
 
@@ -242,8 +247,9 @@ structure Env where
 /-- One handler invocation: method name and argument vector (without the context). -/
 abbrev Call := String × List Json
 
+/-- `s.methods[name]`: registering a name again overwrites the entry, so the last one counts -/
 def lookupMethod (tbl : Table) (name : String) : Option Method :=
-  tbl.find? (fun m => m.name = name)
+  tbl.reverse.find? (fun m => m.name = name)
 
 def requiredParamCount (m : Method) : Nat := (m.params.filter (fun p => !p.optional)).length
 
